@@ -137,6 +137,17 @@ def handler(st, opts):
         if op == "mul_s": return x * 3.0
         if op == "rsub_s": return 1.0 - x
         if op == "neg": return -x
+        if op == "mul_s_m": return x * 2.5
+        if op == "rmul_s_m": return 2.5 * x
+        if op == "div_s_m": return x / 4.0
+        if op == "add_s_m": return x + 1.5
+        if op == "rsub_s_m": return 1.0 - x
+        if op == "neg_m": return -x
+        if op == "add_m": return x + y
+        if op == "mul_m": return x * y
+        if op == "radd_s": return 1.5 + x
+        if op == "rmul_s": return 2.5 * x
+        if op == "sub_s": return x - 1.5
         if op == "layer":
             layer = tt.nn.LinearLayerTT(N, M, [1] + [2] * (d - 1) + [1], dtype=dt)
             return layer(torch.randn([2] + N, generator=gen, dtype=dt))
